@@ -100,7 +100,7 @@ func (def *mapAsList) getByRow(r node.ListRequest) (reflect.Value, []reflect.Val
 	refKey := def.index.vals[r.Row]
 	refVal := def.src.MapIndex(refKey)
 	// assumes the map key is the yang key, otherwise the map would be inefficient at best
-	return refVal, []reflect.Value{refKey}, nil
+	return refVal, []reflect.Value{mapKeyObject(r.Meta, refKey)}, nil
 }
 
 func (def *mapAsList) newListItem(r node.ListRequest) (reflect.Value, error) {
@@ -126,4 +126,21 @@ func mapKeyValue(k val.Value) reflect.Value {
 		return reflect.ValueOf(string(b))
 	}
 	return reflect.ValueOf(k.Value())
+}
+
+// mapKeyObject is mapKeyValue the other way round: what the key of a map-backed list stands
+// for as the value of the key leaf - the bytes of a binary key, not their text
+func mapKeyObject(m *meta.List, k reflect.Value) reflect.Value {
+	text, isText := k.Interface().(string)
+	if !isText || len(m.KeyMeta()) == 0 {
+		return k
+	}
+	t := m.KeyMeta()[0].Type()
+	for hops := 0; t.Format() == val.FmtLeafRef && hops < 32; hops++ {
+		t = t.Resolve()
+	}
+	if t.Format() == val.FmtBinary {
+		return reflect.ValueOf([]byte(text))
+	}
+	return k
 }
